@@ -417,13 +417,13 @@ pub(crate) mod verif_opmod {
             }
         };
     }
-    //@ob name=C04.operation_evaluate.0 harness=k_c04_opeval_0 props=C04,C08,C01 strength=bounded bound="0 operands" fns=op::Operation::evaluate stubs=3 timeout=300 cutdrop=1 group=medium
+    //@ob name=C04.operation_evaluate.0 harness=k_c04_opeval_0 props=C04,C08,C01 strength=bounded bound="0 operands" fns=op::Operation::evaluate stubs=3 timeout=600 cutdrop=1 group=medium
     //@ desc="Operation::evaluate with no operands runs the operator on an empty list"
     opeval_harness!(k_c04_opeval_0, 0, 0, false);
-    //@ob name=C04.operation_evaluate.2 harness=k_c04_opeval_2 props=C04,C08,C01 tier=off strength=bounded bound="2 operands, both succeed (one fresh, one borrowed outcome); values symbolic" fns=op::Operation::evaluate stubs=3 timeout=300 cutdrop=1 group=medium
+    //@ob name=C04.operation_evaluate.2 harness=k_c04_opeval_2 props=C04,C08,C01 tier=off strength=bounded bound="2 operands, both succeed (one fresh, one borrowed outcome); values symbolic" fns=op::Operation::evaluate stubs=3 timeout=600 cutdrop=1 group=medium
     //@ desc="Operation::evaluate: each operand evaluated exactly once, in order, against the data; the operator gets the values in order as distinct fresh instances"
     opeval_harness!(k_c04_opeval_2, 2, 3, false);
-    //@ob name=C04.operation_evaluate.3 harness=k_c04_opeval_3 props=C04,C08,C01 tier=off strength=bounded bound="3 operands, all succeed" fns=op::Operation::evaluate stubs=3 timeout=300 cutdrop=1 group=medium
+    //@ob name=C04.operation_evaluate.3 harness=k_c04_opeval_3 props=C04,C08,C01 tier=off strength=bounded bound="3 operands, all succeed" fns=op::Operation::evaluate stubs=3 timeout=600 cutdrop=1 group=medium
     //@ desc="Operation::evaluate with three operands"
     opeval_harness!(k_c04_opeval_3, 3, 7, false);
     //@ob name=C04.operation_evaluate.2err harness=k_c04_opeval_2err props=C04,C01 tier=off strength=bounded bound="2 operands, the first fails" fns=op::Operation::evaluate stubs=3 timeout=300 cutdrop=1 group=heavy
